@@ -6,10 +6,14 @@ use crate::engine::{CaseResult, Ctx, Fail, Report, Tier};
 
 pub mod c01;
 pub mod c02;
+pub mod c03;
+pub mod c04;
+pub mod c05;
 pub mod c06;
 pub mod c07;
 pub mod c08;
 pub mod c09;
+pub mod c10;
 pub mod c11;
 pub mod c12;
 pub mod c14;
@@ -17,8 +21,10 @@ pub mod c15;
 pub mod c16;
 pub mod c17;
 pub mod c19;
+pub mod c20;
 pub mod codec;
 pub mod hcobs_small;
+pub mod iovec_sm;
 pub mod stream_in;
 pub mod streaming;
 
@@ -35,7 +41,7 @@ pub struct PropDef {
 }
 
 pub fn all() -> Vec<PropDef> {
-    vec![c01::def(), c02::def(), c06::def(), c07::def(), c08::def(), c09::def(), c11::def(), c12::def(), c14::def(), c15::def(), c16::def(), c17::def()]
+    vec![c01::def(), c02::def(), c03::def(), c04::def(), c05::def(), c06::def(), c07::def(), c08::def(), c09::def(), c10::def(), c11::def(), c12::def(), c14::def(), c15::def(), c16::def(), c17::def(), c20::def()]
 }
 
 pub fn find(id: &str) -> Option<PropDef> {
